@@ -178,7 +178,7 @@ theorem C05_batch_order_preserved (b : BatchRequest) :
 theorem C05_BatchResponse_roundtrip (reg : ErrRegistry) (cls : ErrClass) (rs : List Response) (b : BatchResponse)
     (hwf : ∀ r ∈ rs, r.WF) (h : BatchResponse.construct rs = .ok b) :
     BatchResponse.fromJson reg cls b.toJson
-      = .ok { b with responses := rs.map (Response.reclass reg .jsonRpcError) } := by
+      = .ok { b with responses := rs.map (Response.reclass reg cls) } := by
   have hb : b.responses = rs ∧ b.strict = true ∧ b.error = .unset ∧ addIds true [] (rs.map (·.id)) = .ok b.ids := by
     unfold BatchResponse.construct BatchResponse.extend at h
     simp only at h
@@ -189,18 +189,18 @@ theorem C05_BatchResponse_roundtrip (reg : ErrRegistry) (cls : ErrClass) (rs : L
   unfold BatchResponse.toJson BatchResponse.fromJson
   rw [herr, hreq]
   simp only
-  have : mapPy (Response.fromJson reg .jsonRpcError) (rs.map Response.toJson)
-      = .ok (rs.map (Response.reclass reg .jsonRpcError)) := by
+  have : mapPy (Response.fromJson reg cls) (rs.map Response.toJson)
+      = .ok (rs.map (Response.reclass reg cls)) := by
     clear h hreq hids
     induction rs with
     | nil => rfl
     | cons r rs ih =>
-      have h1 := C05_Response_roundtrip reg .jsonRpcError r (hwf r (by simp))
+      have h1 := C05_Response_roundtrip reg cls r (hwf r (by simp))
       have h2 := ih (fun x hx => hwf x (by simp [hx]))
       simp [mapPy, h1, h2]
   rw [this]
   simp only [BatchResponse.construct, BatchResponse.extend]
-  have hid : (rs.map (Response.reclass reg .jsonRpcError)).map (·.id) = rs.map (·.id) := by
+  have hid : (rs.map (Response.reclass reg cls)).map (·.id) = rs.map (·.id) := by
     simp [Response.reclass]
   rw [hid, hids]
   obtain ⟨q, i, e, s⟩ := b
